@@ -29,6 +29,7 @@ const W_RESOLVED_AFTER_TIMEOUT: u64 = 32;
 const W_LATE_PONG: u64 = 64;
 const W_HUNG: u64 = 128;
 const W_PEER_PINGS: u64 = 256;
+const W_LATE_POLL: u64 = 512;
 
 const TOL: Duration = Duration::from_millis(3);
 
@@ -60,6 +61,9 @@ struct Scn {
     /// the peer sends Pings of its own every interval (and keeps doing so after it has stopped answering ours):
     /// only Pongs are evidence that our Pings get through
     peer_pings: bool,
+    /// the connection task may be polled LATE once (2 ms after it became runnable): timers fire late on a busy
+    /// machine, and a peer that answers within a millisecond must survive that also when T = I
+    jitter: bool,
 }
 
 fn od(ms: u64) -> OptionalDuration {
@@ -137,6 +141,7 @@ async fn run_async(sc: &Scn, render: bool) -> RunOutput {
     let mut ended_at: Option<Duration> = None;
     let mut log: Vec<String> = Vec::new();
     let mut hit_horizon = false;
+    let mut late_used = false;
     let mut next_peer_ping = t0 + i / 2;
     loop {
         if w.sim.steps > 20_000 {
@@ -204,6 +209,14 @@ async fn run_async(sc: &Scn, render: bool) -> RunOutput {
         let c = choose(&kinds);
         if c < en.len() {
             let step: Step = en[c].clone();
+            if sc.jitter && !late_used && matches!(step, Step::Poll(0)) {
+                // environment answer: on time (default) or late
+                if choose(&[Cost::Env, Cost::Env]) == 1 {
+                    late_used = true;
+                    wit |= W_LATE_POLL;
+                    tokio::time::advance(Duration::from_millis(2)).await;
+                }
+            }
             if render {
                 log.push(format!("{}@{:?}", w.sim.describe(&step), now - t0));
             }
@@ -360,7 +373,7 @@ pub fn run(args: &Args) -> Report {
                 if interval == 0 && (code != 0 || prompt_tail) {
                     continue;
                 }
-                let sc = Scn { interval, timeout, rounds: hist.clone(), prompt_tail, hung_tail: false, peer_pings: false };
+                let sc = Scn { interval, timeout, rounds: hist.clone(), prompt_tail, hung_tail: false, peer_pings: false, jitter: false };
                 let label = format!("I={interval}ms T={}ms history={hist:?} then {}", if timeout == 0 { "NONE".to_string() } else { timeout.to_string() }, if prompt_tail { "prompt" } else { "silent" });
                 cases.push(Case { try_unbounded: false, max_k: u32::MAX, label, exec: Box::new(move |r| exec(&sc, r)) });
             }
@@ -376,11 +389,20 @@ pub fn run(args: &Args) -> Report {
             let total = 2usize.pow(len as u32);
             for code in 0..total {
                 let hist: Vec<Delay> = (0..len).map(|r| if (code >> r) & 1 == 0 { Delay::Zero } else { Delay::Half }).collect();
-                let sc = Scn { interval, timeout, rounds: hist.clone(), prompt_tail: false, hung_tail: true, peer_pings: false };
+                let sc = Scn { interval, timeout, rounds: hist.clone(), prompt_tail: false, hung_tail: true, peer_pings: false, jitter: false };
                 let label = format!("I={interval}ms T={}ms history={hist:?} then the peer hangs (reads nothing), send side congested", if timeout == 0 { "NONE".to_string() } else { timeout.to_string() });
                 cases.push(Case { try_unbounded: false, max_k: u32::MAX, label, exec: Box::new(move |r| exec(&sc, r)) });
             }
         }
+    }
+    // a live peer that answers every Ping at once, and the connection task polled 2 ms late once (any one poll)
+    for &(interval, timeout) in &cfgs2 {
+        if interval == 0 {
+            continue;
+        }
+        let sc = Scn { interval, timeout, rounds: vec![Delay::Zero; 3], prompt_tail: true, hung_tail: false, peer_pings: false, jitter: true };
+        let label = format!("I={interval}ms T={}ms every Ping answered at once; one poll of the connection task comes 2 ms late", if timeout == 0 { "NONE".to_string() } else { timeout.to_string() });
+        cases.push(Case { try_unbounded: false, max_k: 0, label, exec: Box::new(move |r| exec(&sc, r)) });
     }
     // the peer keeps sending Pings of its own, also after it has stopped answering ours
     for &(interval, timeout) in &cfgs2 {
@@ -393,7 +415,7 @@ pub fn run(args: &Args) -> Report {
             for code in 0..total {
                 let hist: Vec<Delay> = (0..len).map(|r| if (code >> r) & 1 == 0 { Delay::Zero } else { Delay::Half }).collect();
                 for prompt_tail in [false, true] {
-                    let sc = Scn { interval, timeout, rounds: hist.clone(), prompt_tail, hung_tail: false, peer_pings: true };
+                    let sc = Scn { interval, timeout, rounds: hist.clone(), prompt_tail, hung_tail: false, peer_pings: true, jitter: false };
                     let label = format!("I={interval}ms T={}ms history={hist:?} then {}; the peer sends its own Ping every interval throughout", if timeout == 0 { "NONE".to_string() } else { timeout.to_string() }, if prompt_tail { "prompt" } else { "silent" });
                     cases.push(Case { try_unbounded: false, max_k: u32::MAX, label, exec: Box::new(move |r| exec(&sc, r)) });
                 }
@@ -405,15 +427,15 @@ pub fn run(args: &Args) -> Report {
     rep.bounds.insert("interval_timeout_pairs".into(), serde_json::json!("I in {1,2,3} s x T in {NONE,1,2,3,5} s (T<I clamped), sub-second pairs (1.5,1.0) (2.9,2.1) (0.5,0.3) (1.0,1.5) (1.2,1.2) (0.7,NONE), plus I=NONE with and without T"));
     let plan = Plan {
         ks: vec![0, 1],
-        env: 0,
+        env: 1,
         fault: 0,
         total_wall: Duration::from_secs(if thorough { 1500 } else { 50 }),
         max_execs_per_case: 5_000,
-        required_witnesses: W_TIMEOUT | W_SURVIVED | W_PING_SEEN | W_DISABLED | W_CLAMPED | W_RESOLVED_AFTER_TIMEOUT | W_LATE_PONG | W_HUNG | W_PEER_PINGS,
+        required_witnesses: W_TIMEOUT | W_SURVIVED | W_PING_SEEN | W_DISABLED | W_CLAMPED | W_RESOLVED_AFTER_TIMEOUT | W_LATE_PONG | W_HUNG | W_PEER_PINGS | W_LATE_POLL,
         adaptive: thorough,
-        witness_names: &[("timeout_detected", W_TIMEOUT), ("survived_to_horizon", W_SURVIVED), ("ping_seen", W_PING_SEEN), ("keepalive_disabled_case", W_DISABLED), ("timeout_clamped_to_interval", W_CLAMPED), ("operations_resolved_after_timeout", W_RESOLVED_AFTER_TIMEOUT), ("late_pong_tolerated", W_LATE_PONG), ("peer_hung_with_congested_send_side", W_HUNG), ("peer_sends_its_own_pings", W_PEER_PINGS)],
+        witness_names: &[("timeout_detected", W_TIMEOUT), ("survived_to_horizon", W_SURVIVED), ("ping_seen", W_PING_SEEN), ("keepalive_disabled_case", W_DISABLED), ("timeout_clamped_to_interval", W_CLAMPED), ("operations_resolved_after_timeout", W_RESOLVED_AFTER_TIMEOUT), ("late_pong_tolerated", W_LATE_PONG), ("peer_hung_with_congested_send_side", W_HUNG), ("peer_sends_its_own_pings", W_PEER_PINGS), ("connection_task_polled_late", W_LATE_POLL)],
     };
-    rep.rule = "psim in virtual time: one real endpoint whose Options come from the public builders, its real task future polled by hand inside a paused-clock tokio runtime (timers fire by auto-advance, TimestampProvider reads the same clock), a raw peer answering Ping k after a scripted delay; EVERY history of R delays over {0, T/2, T, T+10 ms, never} followed by a silent or prompt tail (plus: after every history of <= 2 (thorough: R) in-time answers the peer HANGS, i.e. stops reading as well, while the application sends a burst into a transport of capacity 2, so the send side is congested when the timeout is due; plus: the peer sends Pings of its own every interval throughout, also while it does not answer ours), for every (I,T) pair incl. T<I (clamped), T=I, T=NONE and I=NONE; timer-vs-pong races at equal instants are scheduling choices (<= k deviations). Oracle: Ping k leaves at k*I; disabled => no Ping, no end; the task ends only with KeepaliveTimeout, at a time t with last_pong+T_eff <= t <= last_pong+T_eff+I; never when every Ping was answered within T; no silent gap > T_eff+I survives; after the timeout the pending accept/get_datagram resolve although the transport stays silent".into();
+    rep.rule = "psim in virtual time: one real endpoint whose Options come from the public builders, its real task future polled by hand inside a paused-clock tokio runtime (timers fire by auto-advance, TimestampProvider reads the same clock), a raw peer answering Ping k after a scripted delay; EVERY history of R delays over {0, T/2, T, T+10 ms, never} followed by a silent or prompt tail (plus: after every history of <= 2 (thorough: R) in-time answers the peer HANGS, i.e. stops reading as well, while the application sends a burst into a transport of capacity 2, so the send side is congested when the timeout is due; plus: the peer sends Pings of its own every interval throughout, also while it does not answer ours; plus: a peer answering at once while any ONE poll of the connection task comes 2 ms late (a timer firing late), which must not look like a dead peer even when T = I), for every (I,T) pair incl. T<I (clamped), T=I, T=NONE and I=NONE; timer-vs-pong races at equal instants are scheduling choices (<= k deviations). Oracle: Ping k leaves at k*I; disabled => no Ping, no end; the task ends only with KeepaliveTimeout, at a time t with last_pong+T_eff <= t <= last_pong+T_eff+I; never when every Ping was answered within T; no silent gap > T_eff+I survives; after the timeout the pending accept/get_datagram resolve although the transport stays silent".into();
     rep.assumptions = vec!["tolerance 3 ms for tokio's millisecond timer rounding".into(), "the interval is set before the timeout (documented builder order)".into()];
     run_cases(args, &mut rep, cases, &plan);
     rep
